@@ -151,14 +151,13 @@ def run(ctx, rep):
                witness=ctx.path([esc[0], g.excexit]) if esc else None)
         if forks:
             # child branch: every path ends in os._exit
-            # partial evaluation with the fork() result bound to 0 (the child)
+            # partial evaluation with the fork() result equal to 0 (the child)
             exits = [n for n in g.live if n.ast is not None and n.kind == "stmt" and A.find_calls(n.ast, "os._exit")]
-            fk = forks[0]
-            pv = fk.ast.targets[0].id if isinstance(fk.ast, ast.Assign) and isinstance(fk.ast.targets[0], ast.Name) else None
-            okc = pv is not None and bool(exits)
+            fr_ = K.fork_regions(ctx, g)
+            okc = fr_ is not None and bool(exits)
             bad = None
             if okc:
-                vok = Q.valuation_edges(Q.var_const_decider(ctx.try_fold, pv, 0))
+                fk, _, _, vok = fr_
                 ex_ids = {x.id for x in exits}
                 bad = Q.find_path_ef([fk], lambda x: x is g.exit or x is g.excexit,
                                      lambda a, b, l: vok(a, b, l) and b.id not in ex_ids and not (a is fk and l == "exc"))
